@@ -36,6 +36,8 @@ type ProcIn struct {
 	// no plain tcp listener in the configuration: nothing forces proxy.Shutdown to take the whole wait (a
 	// tcp.Server always does), so the process ends as soon as the http side has drained
 	NoTCP bool `json:"notcp,omitempty"`
+	// SIGHUPs sent before the SIGTERM, 30 ms apart (logrotate, a supervisor's "reload"): ignored by design
+	Hups int `json:"hups,omitempty"`
 }
 
 type ProcOut struct {
@@ -118,6 +120,9 @@ func runProcess(in *ProcIn) (*ProcOut, error) {
 	// the refresher's next wake-up after SIGTERM must fall well inside grace + wait, or nothing can be observed
 	if in.Dynamic && (in.Refresh < 50 || in.Refresh+500 > in.Grace+in.Wait) {
 		return nil, fmt.Errorf("%w: refresh must be ≥ 50 ms and end ≥ 500 ms before grace + wait", errEnvelope)
+	}
+	if in.Hups < 0 || in.Hups > 5 {
+		return nil, fmt.Errorf("%w: hups", errEnvelope)
 	}
 	switch in.Via {
 	case "":
@@ -240,6 +245,18 @@ func runProcess(in *ProcIn) (*ProcOut, error) {
 	}
 
 	out := &ProcOut{}
+	for i := 0; i < in.Hups; i++ {
+		cmd.Process.Signal(syscall.SIGHUP)
+		time.Sleep(30 * time.Millisecond)
+	}
+	if in.Hups > 0 { // still there, still serving?
+		select {
+		case <-exited: // an observation, not a set-up failure: SIGHUP must not end the process
+			out.Exit, out.Notes = "early", append(out.Notes, fmt.Sprintf("fabio ended after %d SIGHUP(s): %s", in.Hups, tail(logb.String(), 300)))
+			return out, nil
+		default:
+		}
+	}
 	grace := time.Duration(in.Grace) * time.Millisecond
 	wait := time.Duration(in.Wait) * time.Millisecond
 	t0 := time.Now()
@@ -340,6 +357,9 @@ func init() {
 		Name: "c18.process",
 		Gen: func(r *hx.Rand, i int) interface{} {
 			in := ProcIn{Wait: []int{900, 1200, 1500}[r.Intn(3)], Grace: []int{300, 450, 600}[r.Intn(3)]}
+			if i%3 == 1 {
+				in.Hups = r.Range(1, 3)
+			}
 			if i%6 >= 4 { // work through the http listener, with and without a tcp listener next to it
 				in.Via = []string{"http", "ws", "grpc"}[(i/6)%3]
 				in.NoTCP = i%2 == 0
